@@ -4,7 +4,7 @@ import Drv.Common
 /-! Trace-refinement driver for C10.
 
 Input lines
-  `init`                          reset to `Task.init`                      → `ok`
+  `init` / `init <n>`             reset to `Task.init` / `Task.initS (some n)` (settings the task gave itself) → `ok`
   `<act>|<res>|<abs>`             one logged event: the action must be enabled, the reported result must be
                                   `Task.res`, the reported abstraction of the real state must be the successor
                                   state                                      → `ok` / `disabled …` / `mismatch …`
@@ -150,6 +150,10 @@ structure DS where
 
 def stepLine (d : DS) (line : String) : DS × String :=
   match line.splitOn " " with
+  | ["init", v] =>
+    match v.toNat? with
+    | some n => ({ t := initS (some n), l := none }, "ok")
+    | none => (d, "bad-op")
   | ["linit", p, pol] =>
     match p.toNat?, pol with
     | some p, "immediate" => ({ d with l := some (linit p .immediate) }, "ok")
